@@ -9,32 +9,18 @@
   corresponding theorem fail to check.
 -/
 import RxModel.Model.Unicode
+import RxModel.Model.Parser
+import RxModel.Generated.UcdBlocks
 import RxModel.Spec.Tables
 namespace Rx.C10
 open Rx Rx.Spec
 
 /-! ### helpers (all structurally recursive / fuel recursive so that the kernel can evaluate them) -/
 
-def mergeF : Nat → Ranges → Ranges → Ranges
-  | 0, _, _ => []
-  | _+1, [], ys => ys
-  | _+1, xs, [] => xs
-  | f+1, x :: xs, y :: ys => if x.1 ≤ y.1 then x :: mergeF f xs (y :: ys) else y :: mergeF f (x :: xs) ys
-
-def merge (xs ys : Ranges) : Ranges := mergeF (xs.length + ys.length + 1) xs ys
-
-def mergeAll : List Ranges → Ranges
-  | [] => []
-  | l :: ls => merge l (mergeAll ls)
-
 /-- the ranges, in this order, tile `[next, cpLimit)` exactly: no gap, no overlap, none empty -/
 def tiles : Nat → Ranges → Bool
   | next, [] => next == cpLimit
   | next, (a, b) :: rs => a == next && decide (a < b) && tiles b rs
-
-def unionAll : List Ranges → Ranges
-  | [] => []
-  | l :: ls => unionR (unionAll ls) l
 
 def gcShort (n : String) : Ranges := (lookupL Gen.gcAll (s n)).getD []
 def grp (n : String) : Ranges := (lookupL Gen.grpAll (s n)).getD []
@@ -59,7 +45,7 @@ theorem surrogates : gcShort "Cs" = [(0xD800, 0xE000)] := by decide +kernel
 
 /-- each one-letter group is the union of its two-letter members -/
 theorem groups_are_unions :
-    groupMembers.all (fun g => grp g.1 == unionAll (g.2.map gcShort)) = true := by decide +kernel
+    groupMembers.all (fun g => grp g.1 == unionSorted (g.2.map gcShort)) = true := by decide +kernel
 
 /-- each two-letter name selects the ICU set of exactly that category -/
 theorem two_letter_groups : twoLetterGroups.all (fun p => grp p.2 == gcShort p.1) = true := by decide +kernel
@@ -70,10 +56,17 @@ theorem arms_expected : Gen.categoryArms = expectedArms.map (fun p => (s p.1, s 
 /-- `\d` = Nd -/
 theorem digit_is_Nd : digitStd = gcShort "Nd" := by decide +kernel
 
-/-- `\w` = everything outside P, Z and C — which, the categories being a partition, is L ∪ M ∪ N ∪ S -/
-theorem word_def : wordStd = diffR (diffR (diffR allR (grp "Punctuation")) (grp "Separator")) (grp "Other") := by
+/-- `\w` = everything outside P, Z and C: the four sets tile the code points … -/
+theorem word_complement :
+    tiles 0 (mergeAll [wordStd, grp "Punctuation", grp "Separator", grp "Other"]) = true := by decide +kernel
+
+/-- … which, the categories being a partition, is L ∪ M ∪ N ∪ S -/
+theorem word_is_LMNS : wordStd = unionSorted [grp "Letter", grp "Mark", grp "Number", grp "Symbol"] := by decide +kernel
+
+/-- what `word_char()` removes and from what: the full range minus exactly P, Z, C -/
+theorem word_sources : Gen.wordCharBase = (0, 0x10FFFF) ∧
+    Gen.wordCharRemoved = [s "Punctuation", s "Separator", s "Other"] ∧ Gen.decimalNumberCategory = s "DecimalNumber" := by
   decide +kernel
-theorem word_is_LMNS : wordStd = unionAll [grp "Letter", grp "Mark", grp "Number", grp "Symbol"] := by decide +kernel
 
 /-! ### XML name characters -/
 
@@ -114,14 +107,48 @@ theorem block_lookup_correct :
 theorem private_use : Gen.privateUseRanges = privateUse ∧
     blockStd (s "PrivateUse") = some [(0xE000, 0xF900), (0xF0000, 0xFFFFE), (0x100000, 0x10FFFE)] := by decide +kernel
 
-/-- an unknown category name is rejected by the compiler (`Error::Syntax`) -/
-theorem unknown_category_rejected (c : PC) (st : PS) (inBr : Bool) (name : List Nat) (rest : List Nat)
+/-- an unknown category name is rejected by the compiler (`Error::Syntax`): the pattern has
+    `\p{name}` or `\P{name}` at `st.idx` (a one- or two-letter name, `}` right after it) and the
+    category table does not know the name -/
+theorem unknown_category_rejected (c : PC) (st : PS) (inBr : Bool) (name : List Nat)
     (hp : c.at st.idx = 92) (he : c.at (st.idx + 1) = 112 ∨ c.at (st.idx + 1) = 80)
-    (hpat : c.pat.drop (st.idx + 2) = 123 :: name ++ 125 :: rest)
-    (hname : 125 ∉ name) (hlen : name.length = 1 ∨ name.length = 2)
+    (hlt : st.idx + 1 < c.len)
+    (hidx : st.idx + 2 < c.len) (hb : c.at (st.idx + 2) = 123)
+    (hclose : findClose c (c.len + 1) (st.idx + 3) = some (st.idx + 3 + name.length))
+    (hblock : (c.pat.drop (st.idx + 3)).take name.length = name)
+    (hlen : name.length = 1 ∨ name.length = 2)
     (hunk : c.env.category name = none) :
     escape c st inBr = .err .syntax := by
-  sorry
+  unfold escape
+  simp only [PC.len] at *
+  have hl2 := congrArg List.length hblock
+  simp only [List.length_take, List.length_drop] at hl2
+  rcases he with he | he <;> rcases hlen with hl | hl <;> rw [hl] at hblock hclose hl2 <;>
+    simp [hp, he, hb, hclose, Nat.not_le.mpr hlt, Nat.ne_of_lt hidx] <;>
+    simp [hblock, hunk] <;> omega
+
+/-- the category table knows exactly the 36 names of the arm table -/
+theorem category_names : ∀ n, (categoryStd n).isSome = (Gen.categoryArms.map (·.1)).contains n := by
+  intro n
+  unfold categoryStd
+  have key : ∀ (tbl : List (List Nat × List Nat)), (∀ p ∈ tbl, (lookupL Gen.grpAll p.2).isSome = true) →
+      (match lookupL tbl n with | none => none | some long => lookupL Gen.grpAll long).isSome = (tbl.map (·.1)).contains n := by
+    intro tbl
+    induction tbl with
+    | nil => intro _; simp [lookupL]
+    | cons hd tl ih =>
+      intro h
+      obtain ⟨a, b⟩ := hd
+      simp only [lookupL, List.map_cons, List.contains_cons]
+      by_cases hab : a = n
+      · subst hab
+        have := h (a, b) (by simp)
+        simp [this]
+      · have hne : (a == n) = false := by simpa using hab
+        have hne' : (n == a) = false := by simpa using (fun h => hab h.symm)
+        simp only [hne, hne', Bool.false_or]
+        exact ih (fun p hp => h p (by simp [hp]))
+  exact key Gen.categoryArms (by decide +kernel)
 
 example : categoryStd (s "Lu") = some (gcShort "Lu") ∧ categoryStd (s "Xx") = none ∧ categoryStd (s "Cs") = none := by
   decide +kernel
